@@ -215,6 +215,10 @@ class Interp04(chain.Interp):
         self.r.check_close("vcompress.result", got, ref, 1e-5 * nrm + 1e-12, f"variational_compress({ins['method']}) vs dense mpo@mps")
         self.r.check_close("vcompress.input_state", chain.dense_of(x), before_a, 1e-12 * max(np.linalg.norm(before_a), 1), "input state changed")
         self.r.check_close("vcompress.input_mpo", chain.dense_of(mpo), before_o, 1e-12 * max(np.linalg.norm(before_o), 1), "input mpo changed")
+        # sector and label validity of the result (C06)
+        from vf.props.c03 import check_meta
+        q = tuple(int(v) for v in (np.array(a.q) + np.array(o.q)))
+        check_meta(self, chain.Reg(c, ref, q, "S"), "vcompress")
 
 
 class C04(Prop):
